@@ -35,9 +35,12 @@ SampledOnce(r) == Len(Samples(r)) = 1 /\ Samples(r)[1][2] = r.np
 \* the model follows the removals that were observed (a superfluous removal is not a violation)
 ApplyRm(s, r) == [s EXCEPT !.actC = IF 1 \in RmKinds(r) THEN NoCache ELSE @, !.attC = IF 0 \in RmKinds(r) THEN NoCache ELSE @]
 Flags(r, s) == r.asu = s.asu /\ r.uc = s.useCache
-\* a setter: no error, flags as specified, required caches removed, nothing allocated
-SetterOK(r, s2, req, resample) ==
-  /\ ~r.err /\ Flags(r, s2) /\ req \subseteq RmKinds(r) /\ Len(Inits(r)) = 0
+\* the removals the specification requires matter only for a cache that holds something
+Needed(s, req) == { k \in req : (k = 1 /\ s.actC # NoCache) \/ (k = 0 /\ s.attC # NoCache) }
+\* a setter (s: state before, s2: state specified after): no error, flags as specified, the
+\* dependent caches removed, nothing allocated
+SetterOK(r, s, s2, req, resample) ==
+  /\ ~r.err /\ Flags(r, s2) /\ Needed(s, req) \subseteq RmKinds(r) /\ Len(Inits(r)) = 0
   /\ IF resample THEN SampledOnce(r) ELSE Len(Samples(r)) = 0 /\ r.np = s2.np
 
 (* --------------------- known findings (signatures) --------------------- *)
@@ -141,7 +144,7 @@ SetUpLine(r, s, i) ==
         i2 == [i EXCEPT !.spk = IF Derives(s) THEN << 2, i.zoom >> ELSE @,
                         !.autoT = IF Derives(s) /\ i.zoom = 0 /\ @ = 0 THEN i.tm ELSE @]
     IN Res(/\ ~r.err /\ r.ok /\ Flags(r, s2) /\ r.hasSp /\ r.np = s2.np
-           /\ IF Derives(s) THEN SampledOnce(r) /\ {0, 1} \subseteq RmKinds(r) ELSE Len(Samples(r)) = 0 /\ RmKinds(r) = {}
+           /\ IF Derives(s) THEN SampledOnce(r) /\ Needed(s, {0, 1}) \subseteq RmKinds(r) ELSE Len(Samples(r)) = 0 /\ RmKinds(r) = {}
            /\ IF s.useCache
               THEN /\ Len(ins) = 2 /\ { ins[1][2], ins[2][2] } = {0, 1}
                    /\ \A x \in 1..2 : initOK(ins[x], IF ins[x][2] = 1 THEN s1.actC ELSE s1.attC)
@@ -160,26 +163,26 @@ Line(r, n) ==
         i == ids[r.o] IN
     CASE r.e = "SetAct" ->
            LET s2 == ApplyRm(SetActOp(s), r) IN
-           Plain(SetterOK(r, s2, {1}, FALSE) /\ r.id \in 1..cfg.nAct, s2, [i EXCEPT !.act = r.id])
+           Plain(SetterOK(r, s, s2, {1}, FALSE) /\ r.id \in 1..cfg.nAct, s2, [i EXCEPT !.act = r.id])
       [] r.e = "SetAtt" ->
            LET s2 == ApplyRm(SetAttOp(s), r) IN
-           Plain(SetterOK(r, s2, {0}, FALSE) /\ ~r.hasSp /\ r.id \in 1..cfg.nAtt, s2, [i EXCEPT !.att = r.id, !.spk = << 0, 0 >>])
+           Plain(SetterOK(r, s, s2, {0}, FALSE) /\ ~r.hasSp /\ r.id \in 1..cfg.nAtt, s2, [i EXCEPT !.att = r.id, !.spk = << 0, 0 >>])
       [] r.e = "SetSp" ->
            LET s2 == ApplyRm(SetSpOp(s, r.np), r) IN
-           Plain(SetterOK(r, s2, {0, 1}, TRUE) /\ r.hasSp /\ r.id \in 1..cfg.nSp, s2, [i EXCEPT !.spk = << 1, r.id >>])
+           Plain(SetterOK(r, s, s2, {0, 1}, TRUE) /\ r.hasSp /\ r.id \in 1..cfg.nSp, s2, [i EXCEPT !.spk = << 1, r.id >>])
       [] r.e = "Downsample" ->
            IF DownsampleErr(s) THEN Plain(r.err /\ Flags(r, s) /\ r.np = s.np /\ Len(Samples(r)) = 0, s, i)
            ELSE LET s2 == ApplyRm(DownsampleOp(s, r.np), r) IN
-                Plain(SetterOK(r, s2, {0, 1}, TRUE) /\ r.hasSp /\ r.zoom \in 1..cfg.nZoom, s2, [i EXCEPT !.spk = << 2, r.zoom >>, !.zoom = r.zoom])
+                Plain(SetterOK(r, s, s2, {0, 1}, TRUE) /\ r.hasSp /\ r.zoom \in 1..cfg.nZoom, s2, [i EXCEPT !.spk = << 2, r.zoom >>, !.zoom = r.zoom])
       [] r.e = "SetTmpl" ->
            LET s2 == ApplyRm(SetTmplOp(s, cfg.dets[r.id], cfg.geo[r.id]), r) IN
-           Plain(r.id \in 1..Len(cfg.dets) /\ SetterOK(r, s2, {0, 1}, FALSE) /\ r.ndp = 0, s2, [i EXCEPT !.tm = r.id, !.effE = 0])
+           Plain(r.id \in 1..Len(cfg.dets) /\ SetterOK(r, s, s2, {0, 1}, FALSE) /\ r.ndp = 0, s2, [i EXCEPT !.tm = r.id, !.effE = 0])
       [] r.e = "SetEnergy" ->
            LET s2 == ApplyRm(SetEnergyOp(s), r) IN
-           Plain(SetterOK(r, s2, {}, FALSE) /\ r.id \in 1..Len(cfg.win), s2, [i EXCEPT !.en = r.id])
+           Plain(SetterOK(r, s, s2, {}, FALSE) /\ r.id \in 1..Len(cfg.win), s2, [i EXCEPT !.en = r.id])
       [] r.e = "SetCache" ->
            LET s2 == ApplyRm(SetCacheOp(s, r.b), r) IN
-           Plain(SetterOK(r, s2, IF r.b = s.useCache THEN {} ELSE {0, 1}, FALSE), s2, i)
+           Plain(SetterOK(r, s, s2, IF r.b = s.useCache THEN {} ELSE {0, 1}, FALSE), s2, i)
       [] r.e = "SetOut" -> Plain(~r.err /\ s.tmpl > 0 /\ r.id = i.tm /\ Flags(r, s) /\ Len(r.ev) = 0, SetOutOp(s), i)
       [] r.e = "SetUp" -> SetUpLine(r, s, i)
       [] r.e = "Compute" -> ComputeLine(r, s, i, n)
